@@ -109,7 +109,8 @@ example : (Slot.loc 300).avoids [0xF0, 0xF1, 0xF2, 0xF5] := by intro i h; inject
 theorem frame_setup_shape :
     (JanetModel.Gen.FiberFrame.callArityChecks && JanetModel.Gen.FiberFrame.callNilFill && JanetModel.Gen.FiberFrame.callVarargPack &&
      JanetModel.Gen.FiberFrame.tailArityChecks && JanetModel.Gen.FiberFrame.tailNilFillBeforeVararg &&
-     JanetModel.Gen.FiberFrame.tailNilFillLocals && JanetModel.Gen.FiberFrame.tailVarargPack) = true := by decide
+     JanetModel.Gen.FiberFrame.tailNilFillLocals && JanetModel.Gen.FiberFrame.tailVarargPack &&
+     JanetModel.Gen.FiberFrame.structPairsBounded) = true := by decide
 
 /-- in the VM model an omitted optional parameter (any slot at or above the number of arguments) is nil -/
 theorem mkRegs_omitted_nil (heap : Array JanetModel.Bytecode.Exec.HeapObj) (d : JanetModel.Bytecode.Exec.FuncDef)
